@@ -294,3 +294,227 @@ def r_mtl(c):
             return last
         del junk
     return last
+
+
+# ------------------------------------------------------------------------------------------- C05
+def _weights_agg(name, w):
+    from torchjd.aggregation import Constant, Sum, Mean
+    if name == "constant":
+        return Constant(torch.tensor(np.asarray(arr(w), dtype=float), dtype=torch.float64))
+    return Sum() if name == "sum" else Mean()
+
+
+def _cmp_grads(prog, twin, names):
+    probs = []
+    for n in names:
+        g1 = prog[n].grad
+        g2 = twin[n].grad
+        a = np.zeros(tuple(prog[n].shape)) if g1 is None else g1.detach().numpy()
+        b = np.zeros(tuple(prog[n].shape)) if g2 is None else g2.detach().numpy()
+        if not close(a, b):
+            probs.append(f".grad of {n}: torchjd {a.tolist()} vs autograd {b.tolist()}")
+    return probs
+
+
+@handler("autojac_vs_autograd")
+def r_vs_autograd(c):
+    from torchjd.autojac import backward
+    spec = c["spec"]
+    prog, twin = RealProg(spec, c["jac"]), RealProg(spec, c["jac"])
+    set_old(prog, c.get("old"))
+    set_old(twin, c.get("old"))
+    outs, ins = c["outputs"], c["inputs"]
+    rows = sum(prog[n].numel() for n in outs)
+    w = np.asarray(arr(c["w"]), dtype=float) if c["agg"] == "constant" else (np.ones(rows) if c["agg"] == "sum" else np.ones(rows) / rows)
+    backward([prog[n] for n in outs], _weights_agg(c["agg"], c["w"]), inputs=[prog[n] for n in ins], parallel_chunk_size=c.get("chunk"))
+    gts, off = [], 0
+    for n in outs:
+        k = twin[n].numel()
+        gts.append(torch.tensor(w[off:off + k], dtype=torch.float64).reshape(twin[n].shape))
+        off += k
+    torch.autograd.backward([twin[n] for n in outs], grad_tensors=gts, inputs=[twin[n] for n in ins])
+    probs = _cmp_grads(prog, twin, [l[0] for l in spec["leaves"]])
+    return dict(reproduced=bool(probs), why=probs[:3])
+
+
+@handler("mtl_vs_autograd")
+def r_mtl_vs_autograd(c):
+    from torchjd.autojac import mtl_backward
+    spec = c["spec"]
+    prog, twin = RealProg(spec, c["jac"]), RealProg(spec, c["jac"])
+    set_old(prog, c.get("old"))
+    set_old(twin, c.get("old"))
+    losses, feats = c["losses"], c["features"]
+    nt = len(losses)
+    w = np.asarray(arr(c["w"]), dtype=float) if c["agg"] == "constant" else (np.ones(nt) if c["agg"] == "sum" else np.ones(nt) / nt)
+    mtl_backward([prog[n] for n in losses], [prog[f] for f in feats], _weights_agg(c["agg"], c["w"]), tasks_params=[[prog[n] for n in ps] for ps in c["tasks_params"]],
+                 shared_params=[prog[n] for n in c["shared_params"]], parallel_chunk_size=c.get("chunk"))
+    torch.autograd.backward([twin[n] for n in losses], grad_tensors=[torch.tensor(w[t], dtype=torch.float64) for t in range(nt)],
+                            inputs=[twin[n] for n in c["shared_params"]], retain_graph=True)
+    for t in range(nt):
+        if c["tasks_params"][t]:
+            twin[losses[t]].backward(inputs=[twin[n] for n in c["tasks_params"][t]], retain_graph=True)
+    probs = _cmp_grads(prog, twin, [l[0] for l in spec["leaves"]])
+    return dict(reproduced=bool(probs), why=probs[:3])
+
+
+# ------------------------------------------------------------------------------------------- C07 / C13: observing sweeps and freeing
+class SweepLog:
+    """records torch.autograd.grad calls and torch.vmap invocations made by torchjd (patched at the module boundary)"""
+
+    def __init__(self):
+        self.events, self.depth = [], 0
+
+    def __enter__(self):
+        self.og, self.ov = torch.autograd.grad, torch.vmap
+        log = self
+
+        def grad(outputs, inputs, grad_outputs=None, retain_graph=None, **kw):
+            log.events.append(("sweep", log.depth > 0, bool(retain_graph)))
+            return log.og(outputs, inputs, grad_outputs=grad_outputs, retain_graph=retain_graph, **kw)
+
+        def vmap(func, *a, **k):
+            inner = log.ov(func, *a, **k)
+
+            def run(*args):
+                def bs(x):
+                    if isinstance(x, torch.Tensor):
+                        return x.shape[0]
+                    return bs(x[0])
+                log.events.append(("vmap_enter", bs(args)))
+                log.depth += 1
+                try:
+                    return inner(*args)
+                finally:
+                    log.depth -= 1
+                    log.events.append(("vmap_exit",))
+            return run
+
+        torch.autograd.grad, torch.vmap = grad, vmap
+        return self
+
+    def __exit__(self, *a):
+        torch.autograd.grad, torch.vmap = self.og, self.ov
+
+    def sweeps(self):
+        out, cur = [], None
+        for e in self.events:
+            if e[0] == "vmap_enter":
+                cur = [e[1], None]
+            elif e[0] == "vmap_exit":
+                if cur is not None and cur[1] is not None:
+                    out.append((cur[0], True, cur[1]))
+                cur = None
+            elif e[0] == "sweep":
+                if cur is not None:
+                    cur[1] = e[2]
+                else:
+                    out.append((1, False, e[2]))
+        return out
+
+
+def _expected_blocks(m, k):
+    import math
+    k = m if k is None else k
+    n = math.ceil(m / k)
+    return [k] * (n - 1) + [m - (n - 1) * k]
+
+
+@handler("chunking")
+def r_chunking(c):
+    from torchjd.autojac import backward, mtl_backward
+    Agg = from_torchjd()
+    spec = c["spec"]
+    k, retain, m = c.get("chunk"), bool(c.get("retain_graph")), int(c["rows"])
+    vmap_bad = any(not o.get("vmap_ok", True) for o in spec["ops"])
+
+    def run(kk):
+        prog = RealProg(spec, c.get("jac") or {})
+        agg = Agg([])
+        with SweepLog() as log:
+            if c["mode"] == "backward":
+                backward([prog[n] for n in c["outputs"]], agg, inputs=[prog[n] for n in c["inputs"]], parallel_chunk_size=kk, retain_graph=retain)
+            else:
+                mtl_backward([prog[n] for n in c["losses"]], [prog[f] for f in c["features"]], agg, tasks_params=[[prog[n] for n in ps] for ps in c["tasks_params"]],
+                             shared_params=[prog[n] for n in c["shared_params"]], parallel_chunk_size=kk, retain_graph=retain)
+        return prog, agg, log
+    probs = []
+    try:
+        prog, agg, log = run(k)
+    except RuntimeError as e:
+        needs_vmap = any(b > 1 for b in _expected_blocks(m, k))
+        ok = vmap_bad and needs_vmap
+        return dict(reproduced=not ok, why=[f"call raised {e!r} although differentiation should be sequential"] if not ok else [])
+    sw = log.sweeps()
+    if c["mode"] == "mtl":
+        sw = sw[len(c["losses"]):]  # the first sweeps are the per-task Grad calls (one row each, heads only)
+    exp = _expected_blocks(m, k)
+    if [s[0] for s in sw] != exp:
+        probs.append(f"row blocks of the sweeps {[s[0] for s in sw]} != {exp}")
+    if not all(s[1] == (s[0] > 1) for s in sw):
+        probs.append("vmap used for a single-row block or not used for a larger one")
+    if [s[2] for s in sw] != [True] * (len(sw) - 1) + [retain]:
+        probs.append(f"retain_graph flags of the sweeps {[s[2] for s in sw]}")
+    if not vmap_bad:
+        prog0, agg0, _ = run(None)
+        if not close(agg.seen[0], agg0.seen[0]):
+            probs.append("matrix given to the aggregator depends on the chunk size")
+        for n in [l[0] for l in spec["leaves"]]:
+            a, b = prog[n].grad, prog0[n].grad
+            if (a is None) != (b is None) or (a is not None and not close(a.numpy(), b.numpy())):
+                probs.append(f".grad of {n} depends on the chunk size")
+    return dict(reproduced=bool(probs), why=probs[:3], sweeps=sw)
+
+
+@handler("bad_chunk")
+def r_bad_chunk(c):
+    from torchjd.autojac import backward
+    Agg = from_torchjd()
+    x = torch.ones(2, dtype=torch.float64, requires_grad=True)
+    return expect_value_error(lambda: backward([x * 2.0], Agg([]), inputs=[x], parallel_chunk_size=c["chunk"]))
+
+
+def probe_freed(prog):
+    """names of the ops (that save tensors) whose saved tensors have been released: a traversal of that op alone raises"""
+    out = []
+    for o in prog.spec["ops"]:
+        if not o.get("saves", True):
+            continue
+        y = prog[o["outs"][0][0]]
+        if y.grad_fn is None:
+            continue
+        xs = [prog[n] for n in o["inputs"] if prog[n].requires_grad]
+        try:
+            torch.autograd.grad([y], xs, grad_outputs=[torch.ones_like(y)], retain_graph=True, allow_unused=True)
+        except RuntimeError:
+            out.append(o["name"])
+    return sorted(out)
+
+
+@handler("retain_graph")
+def r_retain(c):
+    from torchjd.autojac import backward, mtl_backward
+    Agg = from_torchjd()
+    spec = c["spec"]
+    prog, twin = RealProg(spec, c.get("jac") or {}), RealProg(spec, c.get("jac") or {})
+    flag, k = bool(c["flags"][0]), c.get("chunk")
+    agg = Agg([])
+    probs = []
+    try:
+        if c["mode"] == "backward":
+            backward([prog[n] for n in c["outputs"]], agg, inputs=[prog[n] for n in c["inputs"]], retain_graph=flag, parallel_chunk_size=k)
+            torch.autograd.backward([twin[n] for n in c["outputs"]], grad_tensors=[torch.ones_like(twin[n]) for n in c["outputs"]], retain_graph=flag,
+                                    inputs=[twin[n] for n in c["inputs"]])
+        else:
+            mtl_backward([prog[n] for n in c["losses"]], [prog[f] for f in c["features"]], agg, tasks_params=[[prog[n] for n in ps] for ps in c["tasks_params"]],
+                         shared_params=[prog[n] for n in c["shared_params"]], retain_graph=flag, parallel_chunk_size=k)
+            allp = c["shared_params"] + sorted({n for ps in c["tasks_params"] for n in ps})
+            torch.autograd.backward([twin[n] for n in c["losses"]], retain_graph=flag, inputs=[twin[n] for n in allp])
+    except RuntimeError as e:
+        return dict(reproduced=True, why=[f"the call itself raised: {e}"])
+    f1, f2 = probe_freed(prog), probe_freed(twin)
+    if f1 != f2:
+        probs.append(f"ops freed after torchjd {f1} != after torch.autograd.backward {f2}")
+    if flag and f1:
+        probs.append(f"retain_graph=True but {f1} were freed")
+    return dict(reproduced=bool(probs), why=probs)
